@@ -92,6 +92,22 @@ def run(ctx):
         for op in ("=", ">", "like", "=~", "between", "==="):
             for lit in (LITERALS if ctx.tier == "thorough" else rng.sample(LITERALS, 9)):
                 argvs.append(["name from t where %s %s %s" % (col, op, lit)])
+    # arithmetic on boundary operands, in a column, in WHERE and as an ORDER BY key: whole-number and fractional zero
+    # divisors (literal, or the size of an empty file), i64 extremes, non-numeric operands
+    ar_ops = ["+", "-", "*", "/", "%", "mod", "div"]
+    ar_pool = ["0", "1", "-1", "0.0", "5", "size", "length(name)", "hardlinks - 1", "9223372036854775807", "-9223372036854775808", "9223372036854775808", "1e308", "name", "''", "2.5", "-0"]
+    ar_fixed = ["size % 0", "5 % 0", "100 % size", "size / 0", "size % size", "size mod 0", "-9223372036854775808 % -1", "-9223372036854775808 / -1", "9223372036854775807 + 1", "9223372036854775807 * 2",
+                "size % (hardlinks - 1)", "0 % 0", "0 / 0", "length(name) % 0", "-9223372036854775808 - 1", "size * 9223372036854775807 % 7"]
+    ar_exprs = list(ar_fixed)
+    combos = [(a, o, b) for a in ar_pool for o in ar_ops for b in ar_pool]
+    for a, o, b in (combos if ctx.tier == "thorough" else rng.sample(combos, 40)):
+        ar_exprs.append("%s %s %s" % (a, o, b))
+    for e in ar_exprs:
+        argvs.append(["name, %s from t" % e])
+        argvs.append(["name from t where %s = 1" % e])
+        argvs.append(["name from t order by %s" % e])
+    argvs.append(["5 % 0"])
+    argvs.append(["select 5 % 0, 0 / 0, 7 mod 0"])
     for extra in (["-c"], ["-i"] * 0 + ["--config"], ["-c", "nonexistent.toml", "name", "from", "t"], [""], [" "], ["'"], ['"unterminated'], ["name", "into"], ["name", "limit"],
                   ["name from t order by 0"], ["name from t order by 2"], ["name from t order by desc"], ["name from t group by"], ["name from t where size =< 3"], ["/"], ["*", "/", "name"],
                   ["(" * 200 + "name"], ["lower(" * 150 + "name" + ")" * 150 + " from t"], ["asc " * 500 + "name from t"],
@@ -159,6 +175,6 @@ def run(ctx):
             ctx.notes.append("%s: witness no longer fails (status %s); update KNOWN_FINDINGS.json" % (kid, cls))
     ctx.coverage.update(
         evaluations=len(vectors) + len(argvs), distinct_nontrivial=len(st["distinct"]), traces_validated_against_impl=st["agreed"],
-        rule="argument vectors: valid queries from a typed grammar rendered as one argument and split at random whitespace with random letter case, token soups of 1-12 tokens over keywords/operators/brackets/quotes/numbers/globs/paths, single-token deletions, duplications, transpositions and character mutations of valid queries (%s); every scalar function with ill-typed, missing and out-of-range arguments in the select list, in WHERE and in ORDER BY; every column kind with uninterpretable literals; option edge cases. (1) real lexer+parser (harness) vs the Gallina model: outcome class, error message and the whole AST; (2) the binary against a non-empty tree: status in {0,1,2} within 10 s, no panic text, a parse-time rejection prints no row, status 2 comes with a diagnostic. non-trivial = a vector rejected with status 2" % dict(kinds),
+        rule="argument vectors: valid queries from a typed grammar rendered as one argument and split at random whitespace with random letter case, token soups of 1-12 tokens over keywords/operators/brackets/quotes/numbers/globs/paths, single-token deletions, duplications, transpositions and character mutations of valid queries (%s); every scalar function with ill-typed, missing and out-of-range arguments in the select list, in WHERE and in ORDER BY; every column kind with uninterpretable literals; arithmetic (+ - * / %% mod div) over boundary operands - whole-number and fractional zero divisors written as literals or coming from an empty file, i64 extremes, text - as a column, in WHERE and as an ORDER BY key; option edge cases. (1) real lexer+parser (harness) vs the Gallina model: outcome class, error message and the whole AST; (2) the binary against a non-empty tree: status in {0,1,2} within 10 s, no panic text, a parse-time rejection prints no row, status 2 comes with a diagnostic. non-trivial = a vector rejected with status 2" % dict(kinds),
         samples=st["samples"], distribution=dict(st["hist"]))
     return ctx.finish(trusted=["the machine stack is not modelled: inputs nested thousands of levels deep overflow the real stack (recorded finding) while the model's fuel is linear in the token count"])
